@@ -386,3 +386,19 @@ PROPS["C15"] = dict(
          "is malformed; the laws (rendering equals an independent implementation of Go's Duration.String, round "
          "trip, exact add/sub or overflow error, comparison) are evaluated on the implementation's answers",
 )
+
+PROPS["C16"] = dict(
+    streams=["C16"],
+    compare=cmp_laws,
+    classify=lambda case, model, why: dict(kind="failing-input", why=(case[1][:300] if "kind=law" in case[2] else why)),
+    gate_imports=EVAL_GATE + "From Coq Require Import Ascii.\nFrom Cel.Model Require Import Builtins.\nFrom Cel.Proofs Require Import TimestampProofs.\nOpen Scope Z_scope.",
+    exhaustive=False,
+    rule="a case is a timestamp (first/last day of every month of 18 chosen years x 3 times x offsets "
+         "-12:00..+14:00, +-23:59, half-hour offsets; uniformly random dates, nanoseconds and offsets) "
+         "observed through the 10 accessors, string(t), timestamp(string(t)), or an arithmetic/comparison "
+         "program over (t, d, u), or a text passed to timestamp(); non-trivial when the offset is non-zero, "
+         "the local date differs from the UTC date or lies on a month boundary; the laws (fields equal an "
+         "independent calendar computation in the harness, text round trip, instant, t+d-d==t, (t+d)-t==d, "
+         "order by instant) are evaluated on the implementation's answers",
+    trusted_extra=["chrono (DateTime, TimeDelta, RFC 3339) is modelled, not verified; leap-second texts (:60) are outside the model"],
+)
